@@ -24,7 +24,7 @@ from mc.ref import typing as rt
 PROPERTY = "C14"
 MAXTASKS = 50
 RULE = (
-    "every sequence of <=2 operations (<=3 in thorough) from an alphabet of 31 concrete operations, every "
+    "every sequence of <=2 operations (<=3 in thorough) from an alphabet of 37 concrete operations, every "
     "sequence of 3 (4 in thorough) over a reduced 14-operation alphabet; "
     "operations range over 5 environments (module default, two instances, a subclass with "
     "max_recursion_depth=2, a subclass registering its own function), 8 queries and 4 documents, each "
@@ -71,11 +71,15 @@ def ops_alphabet(tier_small=False):
         ops.append(("find", e, q, d))
     ops += [("mfind", "qA", "d1"), ("mfind", "qF", "d1"), ("mfind", "qM", "d1"), ("mfind", "qD", "deep")]
     ops += [("register", "E1"), ("register", "E2"), ("register", "D")]
+    # the caller changes its own document in place between two calls, or drops it and builds a
+    # new one (whose id() may coincide with the old one's): results must follow the data
+    ops += [("mutate", "d1"), ("mutate", "d3"), ("apply_mutate_apply", 0, "d1"), ("apply_renew_apply", 0, "d1"),
+            ("find_mutate_find", "E1", "qA", "d1"), ("find_mutate_find", "D", "qA", "d3")]
     if tier_small:
         keep = {("compile", "E1", "qA"), ("compile", "E1", "qF"), ("compile", "E2", "qF"), ("apply", 0, "d1"),
                 ("apply", 0, "d3"), ("apply", 1, "d2"), ("find", "E2", "qF", "d1"), ("mfind", "qF", "d1"),
                 ("mfind", "qA", "d1"), ("register", "E1"), ("register", "E2"), ("find", "S", "qD", "deep"),
-                ("find", "E1", "qD", "deep"), ("compile", "E1", "qSl")}
+                ("find", "E1", "qD", "deep"), ("compile", "E1", "qSl"), ("mutate", "d1")}
         ops = [o for o in ops if o in keep]
     return ops
 
@@ -121,6 +125,25 @@ class World:
 
         walk(v)
         return copy.deepcopy(v), ids
+
+    def mutate(self, name):
+        """the caller edits its own document in place (legitimate): x toggles 1 <-> 2"""
+        d = self.docs[name]
+        d["x"] = 2 if d["x"] == 1 else 1
+        self.snap[name] = self.snapshot(d)
+
+    def renew(self, name):
+        """the caller drops the document and builds a new one with a different x; CPython will
+        often hand out the same address again"""
+        import gc
+        old_x = self.docs[name]["x"]
+        del self.docs[name]
+        self.snap.pop(name, None)
+        gc.collect()
+        new = D[name]()
+        new["x"] = 2 if old_x == 1 else 1
+        self.docs[name] = new
+        self.snap[name] = self.snapshot(new)
 
     def docs_intact(self):
         for k, v in self.docs.items():
@@ -190,7 +213,7 @@ class Model:
         renv, sigs = self.refenv(e)
         v = rt.classify(q, registry=sigs)
         if v.cls != "valid":
-            return ("err", "JSONPathNameError" if v.kind == "name" else "JSONPathTypeError")
+            return ("err", "JSONPathError")
         if dname is None:
             return ("ok", None)
         doc = docs[dname]
@@ -211,7 +234,10 @@ def observe(fn):
     try:
         r = fn()
     except Exception as e:  # noqa: BLE001
-        return ("err", type(e).__name__)
+        names = [c.__name__ for c in type(e).__mro__]
+        if "JSONPathRecursionError" in names:
+            return ("err", "JSONPathRecursionError")
+        return ("err", "JSONPathError" if "JSONPathError" in names else type(e).__name__)
     if r is None:
         return ("ok", None)
     if hasattr(r, "segments"):
@@ -252,6 +278,34 @@ def run_history(hist):
             _, q, d = op
             exp = m.expect("D", q, d, w.docs)
             obs = observe(lambda: w.jp.find(Q[q], w.docs[d]))
+        elif kind == "mutate":
+            w.mutate(op[1])
+            exp = obs = ("ok", None)
+        elif kind in ("apply_mutate_apply", "apply_renew_apply"):
+            _, k, d = op
+            if k >= len(m.handles) or m.handles[k] is None or w.handles[k] is None:
+                continue
+            e, q = m.handles[k]
+            h = w.handles[k]
+            exp1 = m.expect(e, q, d, w.docs)
+            obs1 = observe(lambda: h.find(w.docs[d]))
+            if tuple(exp1) != tuple(obs1[:2]):
+                return (i, op, exp1, obs1[:2])
+            if kind == "apply_mutate_apply":
+                w.mutate(d)
+            else:
+                w.renew(d)
+            exp = m.expect(e, q, d, w.docs)
+            obs = observe(lambda: h.find(w.docs[d]))
+        elif kind == "find_mutate_find":
+            _, e, q, d = op
+            exp1 = m.expect(e, q, d, w.docs)
+            obs1 = observe(lambda: w.env(e).find(Q[q], w.docs[d]))
+            if tuple(exp1) != tuple(obs1[:2]):
+                return (i, op, exp1, obs1[:2])
+            w.mutate(d)
+            exp = m.expect(e, q, d, w.docs)
+            obs = observe(lambda: w.env(e).find(Q[q], w.docs[d]))
         elif kind == "register":
             _, e = op
             w.env(e).function_extensions["f1"] = w.make_f1(F_IMPL[e])
